@@ -880,11 +880,6 @@ theorem alGet_of_mem_nodup {α β : Type} [BEq α] [LawfulBEq α] (l : List (α 
       simp only [hne, Bool.false_eq_true, if_false]
       exact ih hn.2 hm'
 
-/-- what `potOf` means for the initial state: a potential partition of consumer `c` belongs to a
-    topic in the subscription of (the first member entry named) `c` and is listed in the metadata -/
-def potentialOf (parts : List (Topic × List Nat)) (m : MemberIn) : List TP :=
-  m.subs.flatMap (fun t => match alGet parts t with | none => [] | some ps => ps.map (fun p => (t, p)))
-
 theorem initState_c2p (parts : List (Topic × List Nat)) (members : List MemberIn) (oracle : List TP) :
     (initState parts members oracle).c2p = members.map (fun m => (m.id, potentialOf parts m)) := by
   unfold initState; rfl
